@@ -14,7 +14,7 @@ TITLE = "Declared state limits are never violated in stochastic simulation"
 RULE = ("Hypothesis builds bounded-rate event models whose states carry limits drawn per state from {default, (0,None), (lo,None), "
         "(None,hi), (lo,hi), (None,None)} (plus string- and range-declared states, which have the default), magnitudes 1-3, small "
         "populations at or near a bound, algorithm in {exact, adaptive tau, fixed pre_tau incl. deliberately large steps}, epsilon in "
-        "[0.01,0.5], NumPy seed. Oracle: every recorded state of every raw path and of gridded output lies within its limits "
+        "[0.01,0.5], NumPy seed; in a third of the tau-leap cases an explicit ODE term drifting towards one of the limits, present at construction or added with add_ode / ode_list= after a first simulation on the same object (the second simulation is checked too). Oracle: every recorded state of every raw path and of gridded output lies within its limits "
         "(default lower limit 0); step-level relation on firstReaction/tauLeap called with the model's own evaluators from a generated "
         "in-limits state: success with x_new in limits and t advanced, or failure with the same x and t. Non-trivial = a rejected step "
         "was observed (the engine's 'Illegal jump' report or a failed step-level call) or a state reached a declared bound; distinct by case hash.")
